@@ -49,6 +49,46 @@ inductive Reach (f : Nat → Option Nat) (n : Nat) : St → St → Prop where
 /-- termination measure: every step decreases it -/
 def St.measure (s : St) : Nat := 2 * s.pending.length + s.inflight.length
 
+/-! ### callbacks that may panic
+
+`tokio::spawn` turns a panicking callback into a `JoinError`; all three operators `expect` it
+(`from_coord_iter_parallel` since 17fee433), i.e. the panic reaches the consumer and the stream ends
+there.  A task result is `none` (panicked) or `some (f arg)`. -/
+
+abbrev PTask := Nat × Option (Option Nat)
+
+structure PSt where
+  pending : List Item
+  inflight : List PTask
+  out : List (Nat × Nat)
+  failed : Bool
+deriving Repr, DecidableEq
+
+def PSt.init (xs : List Item) : PSt := ⟨xs, [], [], false⟩
+def PSt.terminal (s : PSt) : Prop := s.pending = [] ∧ s.inflight = []
+
+def pemit : PTask → List (Nat × Nat)
+  | (c, some (some r)) => [(c, r)]
+  | _ => []
+
+def pexpect1 (f : Nat → Option (Option Nat)) (x : Item) : Option (Nat × Nat) :=
+  match f x.2 with
+  | some (some r) => some (x.1, r)
+  | _ => none
+
+def isPanic (t : PTask) : Bool := t.2.isNone
+
+inductive PStep (f : Nat → Option (Option Nat)) (n : Nat) : PSt → PSt → Prop where
+  | start (c a : Nat) (rest : List Item) (infl : List PTask) (out : List (Nat × Nat)) :
+      infl.length < n → PStep f n ⟨(c, a) :: rest, infl, out, false⟩ ⟨rest, infl ++ [(c, f a)], out, false⟩
+  | finish (pend : List Item) (infl : List PTask) (out : List (Nat × Nat)) (i : Nat) (h : i < infl.length) :
+      PStep f n ⟨pend, infl, out, false⟩
+        ⟨pend, infl.eraseIdx i, out ++ pemit infl[i], isPanic infl[i]⟩
+
+inductive PReach (f : Nat → Option (Option Nat)) (n : Nat) : PSt → PSt → Prop where
+  | refl (s : PSt) : PReach f n s s
+  | step {s t u : PSt} : PReach f n s t → PStep f n t u → PReach f n s u
+
 /-! ### executable scheduler driven by a list of choices (ids of the items that complete) -/
 
 structure XSt where
@@ -142,6 +182,36 @@ def handle (args : List String) : String :=
             showSeq x.st.out ++ ";" ++ (if cs.isEmpty then "-" else "|".intercalate (cs.map showSeq))
         else "incomplete"
     | _, _, _, _ => "bad-op"
+  | _ => "bad-op"
+
+/-! ### the sequential combinators (tile_stream.rs): plain list functions, order preserved
+
+* `from_vec`, `from_stream`, `collect`, `next`, `for_each_sync`, `for_each_async`: the stream *is* the list
+* `from_coord_vec_async` (153-160): `stream::iter(vec).filter_map(callback)`
+* `from_stream_iter` (184-192): `.then(..).flatten()`
+* `map_coord` (454-460), `drain_and_count` (481-489) -/
+
+def seqFilterMap (g : Nat → Option (Nat × Nat)) (cs : List Nat) : List (Nat × Nat) := cs.filterMap g
+def flattenStreams (xss : List (List (Nat × Nat))) : List (Nat × Nat) := xss.flatten
+def mapCoord (g : Nat → Nat) (xs : List (Nat × Nat)) : List (Nat × Nat) := xs.map (fun p => (g p.1, p.2))
+def drainCount (xs : List (Nat × Nat)) : Nat := xs.length
+
+/-- the concrete callbacks of the harness for stream `C14s` -/
+def gVec (c : Nat) : Option (Nat × Nat) := if c % 3 = 0 then none else some (c + 1, 2 * c)
+def gCoord (c : Nat) : Nat := c + 3
+
+def parseItems (s : String) : Option (List Item) :=
+  if s == "-" then some [] else (s.splitOn ",").mapM parseItem
+
+/-- `C14s <combinator> <items>`; for `flatten` the streams are separated by `|` -/
+def handleS (args : List String) : String :=
+  match args with
+  | ["mapcoord", items] => (parseItems items).elim "bad-op" (fun l => showSeq (mapCoord gCoord l))
+  | ["vecasync", items] => (parseItems items).elim "bad-op" (fun l => showSeq (seqFilterMap gVec (l.map (·.1))))
+  | ["flatten", groups] =>
+    ((groups.splitOn "|").mapM parseItems).elim "bad-op" (fun l => showSeq (flattenStreams l))
+  | ["count", items] => (parseItems items).elim "bad-op" (fun l => toString (drainCount l))
+  | [_, items] => (parseItems items).elim "bad-op" showSeq     -- collect / next / sync / async: identity
   | _ => "bad-op"
 
 end VtModel.Sched
